@@ -15,6 +15,7 @@ import Poulpy.Lemmas.EpTotal
 import Poulpy.Lemmas.HeadRoom
 import Poulpy.Lemmas.TensorCols
 import Poulpy.Lemmas.TensorValue
+import Poulpy.Lemmas.MulCompose
 import Poulpy.Props.C02
 import Poulpy.Props.C07
 
@@ -866,11 +867,6 @@ example (s : List Poly) :
 instance (c : Col) : Decidable (C02L.ColSmall c) := by unfold C02L.ColSmall C02L.PolySmall; infer_instance
 instance (N : Nat) (c : Col) : Decidable (C02L.LimbsN N c) := by unfold C02L.LimbsN; infer_instance
 
-/-- the tensor's pair columns as handed to the gadget product when the tensor is in the key radix -/
-def relinInput (n : Nat) (a : List Col) (g : GGLWE) : List Col :=
-  (List.range g.colsIn).map (fun i =>
-    Hal.dftApplyCol n 1 0 (((a.getD 0 []).length * g.base2k + g.base2k - 1) / g.base2k) (a.getD (g.colsOut + i) []))
-
 /-- **`relin_decrypts_modulo_norm`** — `glwe_tensor_relinearize` with the tensor in the key radix, i64 accumulator (FFT64), every key digit size: one
 composed statement.  `A·phase(res) = B·(Σ_p σ_p·usedVal(a_p) + Σ_p(Σ_r digit·E − dropped − β^S·head) + phase(first columns of the tensor at S limbs))
 + (E₀ + Σ s_i E_{i+1})`: the pair columns are re-encrypted under `s` by the gadget product (`relin_product_value`), the first `rank+1` columns are
@@ -1517,5 +1513,161 @@ example : ∃ T, tensorApply true false 1 4 2 4 4 [[[3], [0]], [[1], [0]]] 8 [[[
         show Ks.ι 1 (Hal.negMul [2] [2]) = _
         rw [Ks.ι_negMul 1 _ _ rfl (by decide)]; simp)
   exact ⟨T, h1, h2⟩
+
+/-! ## relinearise ∘ tensor: the ciphertext × ciphertext product -/
+
+/-- a well-formed column list passes the executable shape check -/
+theorem shapeOk_of_wf (n cols size : Nat) (x : List Col) (hl : x.length = cols) (h : ∀ c ∈ x, C02L.ColWF n size c) :
+    shapeOk n cols size x = true := by
+  unfold shapeOk
+  simp only [Bool.and_eq_true, beq_iff_eq, List.all_eq_true]
+  exact ⟨hl, fun c hc => ⟨(h c hc).1, fun l hl' => (h c hc).2 l hl'⟩⟩
+
+/-- the gadget terms of a relinearisation -/
+noncomputable def relinErr (N : Nat) (sk : List Poly) (aD : List Col) (g : GGLWE) (β : Ks.R N) (E : ℕ → ℕ → Ks.R N) : Ks.R N :=
+  ∑ i ∈ Finset.range g.colsIn,
+    (∑ r ∈ Finset.range g.dnum,
+        Gadget.digit β g.dsize g.dnum (aD.getD 0 []).length (Ks.inLimb N (mkBuf g.n g.colsIn (aD.getD 0 []).length aD) i) r * E i r
+      - Gadget.dropped β g.size g.dsize g.dnum (aD.getD 0 []).length
+          (Ks.inLimb N (mkBuf g.n g.colsIn (aD.getD 0 []).length aD) i) (Ks.keyPhase N sk g.toPMat i)
+      - β ^ g.size * Gadget.head β g.dsize g.dnum (aD.getD 0 []).length
+          (Ks.inLimb N (mkBuf g.n g.colsIn (aD.getD 0 []).length aD) i) (Ks.keyPhase N sk g.toPMat i))
+
+example : shapeOk 1 2 2 [[[1], [0]], [[2], [3]]] = true := shapeOk_of_wf 1 2 2 _ rfl (by decide)
+
+/-- **`glwe_mul_decrypts`** — the ciphertext × ciphertext product, END TO END: `glwe_tensor_apply` followed by `glwe_tensor_relinearize` with a
+tensor key in the tensor's radix (`≤ 61`), covered regime (`rsT ≤ min(key.size, dnum·dsize)`), EVERY rank, both accumulator widths, result in
+any radix.  Both calls return, the result is well formed, and
+`2^(bt·S)·phase_s(res) = 2^(rb·rs)·(β^{S−rsT}·phase_{(s,s⊗s)}(T) + relinErr) + En + 2^(…)·Q` (`‖En‖_∞ ≤ (1+Σ‖s_i‖₁)·normTol`), where the tensor phase
+satisfies `Core.TensorSpec`: `A·phase_{(s,s⊗s)}(T) = K·β·(Σσ_i val(a'_i))·(Σσ_j val(b'_j)) + residuals` — i.e. the relinearised product decrypts under
+`s` to the product of the two phases at scale `2^cnv_offset`, up to the explicit gadget error (`relinErr`: `Σ digit·E − dropped − β^S·head`), the
+rescaled roundings of the `cols(cols+1)/2 + cols` normalisations, and multiples of the torus moduli.  Head-room of the relinearisation DERIVED
+(`relin_headroom` with tensor digits `≤ 3·(2^bt − 1)`): ONE decidable inequality `Core.prodAdmissible`.  This is the statement CKKS `mul` cites. -/
+theorem glwe_mul_decrypts (big128 : Bool) (N rsT off b : Nat) (a bb : List Col) (aK bK : Nat) (res0T : List Col)
+    (g : GGLWE) (rb rs : Nat) (res0 : List Col) (sk skG : List Poly) (σ : ℕ → Ks.R N) (E : ℕ → ℕ → Ks.R N)
+    (H Dm : Int) (sa sb cols : Nat) (hN : 0 < N)
+    -- the two operands and the tensor
+    (hcols : a.length = cols) (hcb : bb.length = cols) (hc1 : 1 ≤ cols)
+    (ha : ∀ x ∈ a, x.length = sa ∧ ∀ l ∈ x, l.length = N) (hbb : ∀ x ∈ bb, x.length = sb ∧ ∀ l ∈ x, l.length = N)
+    (hsa : 1 ≤ sa) (hsb : 1 ≤ sb) (hhi : (cnvOffsetSplit b off).1 ≤ sa + sb - 1)
+    (hr0 : res0T.length = (cols + 1) * cols / 2)
+    (hbt1 : 1 ≤ g.base2k) (hbt : g.base2k ≤ 61) (hb1 : 1 ≤ b) (hb : b ≤ 62) (hH0 : 0 ≤ H) (hH : H + 8 ≤ 2 ^ (bitsOf big128 - 2))
+    (haccD : ∀ i, i < cols → ∀ l ∈ Hal.cnvApplyCol N (limbBoundWithOffset (sa + sb - (cnvOffsetSplit b off).1) rsT g.base2k b (cnvOffsetSplit b off).2)
+        (cnvOffsetSplit b off).1 ((prepAll N (msbMaskBottomLimb b aK) a).getD i []) ((prepAll N (msbMaskBottomLimb b bK) bb).getD i []),
+        ∀ v ∈ l, |v| ≤ H)
+    (haccP : ∀ i j, i < j → j < cols → ∀ l ∈ Hal.cnvApplyCol N (limbBoundWithOffset (sa + sb - (cnvOffsetSplit b off).1) rsT g.base2k b (cnvOffsetSplit b off).2)
+        (cnvOffsetSplit b off).1
+        (Hal.colAdd N ((prepAll N (msbMaskBottomLimb b aK) a).getD i []) ((prepAll N (msbMaskBottomLimb b aK) a).getD j []))
+        (Hal.colAdd N ((prepAll N (msbMaskBottomLimb b bK) bb).getD i []) ((prepAll N (msbMaskBottomLimb b bK) bb).getD j [])),
+        ∀ v ∈ l, |v| ≤ H)
+    -- the grouped secret of `glwe_tensor_decrypt`: `sk` then the secret tensor
+    (hskl : skG.length = (cols + 1) * cols / 2 - 1) (hσ0 : σ 0 = 1)
+    (hτ : ∀ i j, i ≤ j → j < cols → 0 < cix cols i j → Ks.ι N (skG.getD (cix cols i j - 1) []) = σ i * σ j)
+    (hsk : cols - 1 ≤ sk.length) (hskG1 : ∀ k, k < cols - 1 → skG.getD k [] = sk.getD k [])
+    -- the tensor key
+    (hco : g.colsOut = cols) (hci : g.colsOut + g.colsIn = (cols + 1) * cols / 2)
+    (hrb1 : 1 ≤ rb) (hrb : rb ≤ 62) (hDm : 0 ≤ Dm)
+    (hadm : prodAdmissible (bitsOf big128) g.dsize g.colsIn g.dnum N (3 * (2 ^ g.base2k - 1)) Dm (3 * (2 ^ g.base2k - 1)))
+    (hgd : ∀ row ∈ g.cells, ∀ c ∈ row, ∀ l ∈ c, ∀ x ∈ l, |x| ≤ Dm)
+    (hd : 1 ≤ g.dsize) (hn : g.n = N) (h0 : shapeOk g.n g.colsOut g.size res0 = true) (hM : ∀ j q, (g.toPMat.entry j q).length = N)
+    (hS : g.dnum * g.dsize ≤ g.size) (hcov1 : rsT ≤ g.size) (hcov2 : rsT ≤ g.dnum * g.dsize)
+    (hkey : ∀ i, i < g.colsIn → ∀ r, r < g.dnum →
+      Gadget.val ((2 : Ks.R N) ^ g.base2k) g.size (Ks.keyPhase N sk g.toPMat i r)
+        = 1 * Ks.ι N (skG.getD (cols - 1 + i) []) * ((2 : Ks.R N) ^ g.base2k) ^ (g.size - (r + 1) * g.dsize) + E i r) :
+    ∃ T res, tensorApply false big128 N g.base2k rsT off b a aK bb bK res0T = some T ∧
+      relinearize big128 N rb rs T g.base2k g g.size res0 = some res ∧ C02L.GWF N (Ks.mkCt rb N res) ∧
+      (∀ c ∈ res, ∀ l ∈ c, ∀ x ∈ l, |x| ≤ 2 ^ rb - 1) ∧
+      TensorSpec N g.base2k rsT off b a bb aK bK skG σ sa sb cols T ∧
+      ∃ En Q : Poly, En.length = N ∧ Q.length = N ∧
+        normInf En ≤ (1 + C02L.snorm (min (cols - 1) sk.length) sk) * C02.normTol (rb * rs) (g.base2k * g.size) ∧
+        (2 : Ks.R N) ^ (g.base2k * g.size) * Ks.ι N (C02L.valP rb N (Core.Ops.phase sk (Ks.mkCt rb N res)))
+          = (2 : Ks.R N) ^ (rb * rs) *
+              (((2 : Ks.R N) ^ g.base2k) ^ (g.size - rsT) * Ks.ι N (C02L.valP g.base2k N (Core.Ops.phase skG (Ks.mkCt g.base2k N T)))
+                + relinErr N sk (relinInput N T g) g ((2 : Ks.R N) ^ g.base2k) E)
+            + Ks.ι N En + (2 : Ks.R N) ^ (rb * rs + g.base2k * g.size) * Ks.ι N Q := by
+  obtain ⟨T, hT, hspec⟩ := tensor_apply_decrypts big128 N g.base2k rsT off b a bb aK bK res0T skG σ H sa sb cols hN hcols hcb hc1 ha hbb hsa hsb hhi
+    hr0 hbt1 hbt hb1 hb hH0 hH haccD haccP hskl hσ0 hτ
+  obtain ⟨hTlen, hTwf, hTdig, _⟩ := hspec
+  have hTlen' : T.length = g.colsOut + g.colsIn := by rw [hTlen, hci]
+  have hT0 : 0 < T.length := by rw [hTlen', hco]; omega
+  have hri := relinInput_eq N T g rsT hbt1 hT0 hTlen' hTwf
+  have hcolT : ∀ k, k < T.length → C02L.ColWF N rsT (T.getD k []) ∧ ∀ l ∈ T.getD k [], ∀ v ∈ l, |v| ≤ 3 * (2 ^ g.base2k - 1) := by
+    intro k hk
+    rw [List.getD_eq_getElem?_getD, List.getElem?_eq_getElem hk]
+    exact ⟨hTwf _ (List.getElem_mem hk), hTdig _ (List.getElem_mem hk)⟩
+  have hY0 : (0 : Int) ≤ 3 * (2 ^ g.base2k - 1) := by
+    have : (1 : Int) ≤ 2 ^ g.base2k := one_le_pow₀ (by norm_num)
+    linarith
+  -- shape and digits of the pair columns
+  have hriwf : ∀ c ∈ relinInput N T g, C02L.ColWF N rsT c := by
+    rw [hri]; intro c hc
+    obtain ⟨i, hi, rfl⟩ := List.mem_map.mp hc
+    exact (hcolT _ (by have := List.mem_range.mp hi; omega)).1
+  have hrib : ∀ c ∈ relinInput N T g, ∀ l ∈ c, ∀ x ∈ l, |x| ≤ 3 * (2 ^ g.base2k - 1) := by
+    rw [hri]; intro c hc
+    obtain ⟨i, hi, rfl⟩ := List.mem_map.mp hc
+    exact (hcolT _ (by have := List.mem_range.mp hi; omega)).2
+  have hrilen : (relinInput N T g).length = g.colsIn := by simp [relinInput]
+  have hrish : shapeOk g.n g.colsIn ((relinInput N T g).getD 0 []).length (relinInput N T g) = true := by
+    rw [hn]
+    by_cases hci0 : g.colsIn = 0
+    · have : relinInput N T g = [] := by unfold relinInput; rw [hci0]; rfl
+      rw [this, hci0]; rfl
+    · have h0' : 0 < (relinInput N T g).length := by rw [hrilen]; omega
+      have e : ((relinInput N T g).getD 0 []).length = rsT := by
+        rw [List.getD_eq_getElem?_getD, List.getElem?_eq_getElem h0']; exact (hriwf _ (List.getElem_mem h0')).1
+      rw [e]
+      exact shapeOk_of_wf N g.colsIn rsT _ hrilen hriwf
+  have hPb := relin_headroom N (relinInput N T g) g res0 (3 * (2 ^ g.base2k - 1)) Dm hY0 hDm hd hn hrish h0 hrib hgd
+  unfold prodAdmissible at hadm
+  obtain ⟨res, hres, hgwf, hdig, En, Q, hE, hQ, hnm, heq⟩ := relin_decrypts big128 rb rs T g res0 sk
+    (prodBound g.dsize g.colsIn g.dnum N (3 * (2 ^ g.base2k - 1)) Dm) (3 * (2 ^ g.base2k - 1))
+    hrb1 hrb hbt1 (by omega) (prodBound_nonneg _ _ _ _ _ _ hY0 hDm) hY0 hadm hPb
+    (fun j hj => (hcolT j (by omega)).1.2) hTdig (fun i => Ks.ι N (skG.getD (cols - 1 + i) [])) E hd hN hn (by omega) h0 hM hS hkey
+  refine ⟨T, res, hT, hres, hgwf, hdig, ⟨hTlen, hTwf, hTdig, ‹_›⟩, En, Q, hE, hQ, by rw [← hco]; exact hnm, ?_⟩
+  have hcv := relin_covered_value N hN T g sk skG (fun i => Ks.ι N (skG.getD (cols - 1 + i) [])) rsT hTlen' (by omega) hTwf hbt1 hd hcov1 hcov2
+    (by rw [hco]; exact hsk) (by rw [hskl, hTlen]) (by rw [hco]; exact hskG1) (fun p _ => by rw [hco])
+  unfold relinErr
+  rw [← hcv]
+  rw [heq]
+  ring
+
+/-- rank 1, one-pair tensor key `exTsk` (`dsize = 2`), grouped secret `[s, s⋆s]`, every hypothesis discharged -/
+example : ∃ T res, tensorApply false false 1 exTsk.base2k 2 4 4 [[[3], [0]], [[1], [0]]] 8 [[[2], [0]], [[1], [0]]] 8 (zeroCols 1 3 2) = some T ∧
+    relinearize false 1 4 3 T exTsk.base2k exTsk exTsk.size (zeroCols 1 2 3) = some res ∧ C02L.GWF 1 (Ks.mkCt 4 1 res) := by
+  obtain ⟨T, res, h1, h2, h3, _⟩ := glwe_mul_decrypts false 1 2 4 4 [[[3], [0]], [[1], [0]]] [[[2], [0]], [[1], [0]]] 8 8 (zeroCols 1 3 2)
+    exTsk 4 3 (zeroCols 1 2 3) [[2]] [[2], Hal.negMul [2] [2]] (fun i => if i = 0 then 1 else Ks.ι 1 [2])
+    (fun i r => Gadget.val ((2 : Ks.R 1) ^ exTsk.base2k) exTsk.size (Ks.keyPhase 1 [[2]] exTsk.toPMat i r)
+      - 1 * Ks.ι 1 (([[2], Hal.negMul [2] [2]] : List Poly).getD (2 - 1 + i) []) * ((2 : Ks.R 1) ^ exTsk.base2k) ^ (exTsk.size - (r + 1) * exTsk.dsize))
+    (2 ^ 61) 1 2 2 2 (by decide) rfl rfl (by decide)
+    (by decide) (by decide) (by decide) (by decide) (by decide) (by decide) (by decide) (by decide) (by decide) (by decide) (by decide) (by decide)
+    (by decide)
+    (by
+      intro i j hij hj
+      have h01 : i = 0 ∧ j = 1 := by omega
+      obtain ⟨rfl, rfl⟩ := h01
+      decide)
+    (by decide) rfl
+    (by
+      intro i j hij hj hpos
+      have hcases : (i = 0 ∧ j = 1) ∨ (i = 1 ∧ j = 1) := by
+        have hj2 : j < 2 := hj
+        have : ¬ (i = 0 ∧ j = 0) := by
+          rintro ⟨rfl, rfl⟩; simp [cix, colIdx] at hpos
+        omega
+      rcases hcases with ⟨rfl, rfl⟩ | ⟨rfl, rfl⟩
+      · have e : cix 2 0 1 - 1 = 0 := by decide
+        rw [e]; simp
+      · have e : cix 2 1 1 - 1 = 1 := by decide
+        rw [e]
+        show Ks.ι 1 (Hal.negMul [2] [2]) = _
+        rw [Ks.ι_negMul 1 _ _ rfl (by decide)]; simp)
+    (by decide)
+    (by intro k hk; have : k = 0 := by omega
+        subst this; rfl)
+    rfl (by decide) (by decide) (by decide) (by decide) (by decide) (by decide +kernel) (by decide) rfl (by decide)
+    (Ks.entry_length exTsk.toPMat 1 rfl (by decide +kernel)) (by decide) (by decide) (by decide)
+    (by intro i _ r _; exact (add_sub_cancel _ _).symm)
+  exact ⟨T, res, h1, h2, h3⟩
 
 end C05
